@@ -158,7 +158,7 @@ func runSyncResp(name string) (rec sRec) {
 	}
 
 	site = "Connect(A->B)"
-	cctx, ccancel := context.WithTimeout(context.Background(), 3*time.Second)
+	cctx, ccancel := context.WithTimeout(context.Background(), scaled(3*time.Second))
 	err = a.Connect(cctx, b)
 	ccancel()
 	if err != nil {
@@ -170,7 +170,7 @@ func runSyncResp(name string) (rec sRec) {
 
 	site = "Syncer.Sync"
 	tip := cb.blocks[len(cb.blocks)-1]
-	sctx, scancel := context.WithTimeout(context.Background(), 12*time.Second)
+	sctx, scancel := context.WithTimeout(context.Background(), scaled(12*time.Second))
 	defer scancel()
 	done := make(chan error, 1)
 	go func() {
@@ -194,7 +194,7 @@ func runSyncResp(name string) (rec sRec) {
 				obs.LastErr = obs.LastErr[:90]
 			}
 		}
-	case <-time.After(15 * time.Second):
+	case <-time.After(scaled(15 * time.Second)):
 		obs.LastErr = "hang"
 	}
 	site = "observe"
